@@ -142,6 +142,29 @@ T = {
                         ([[C('gen')], [C('g0')], [S(0)], [S(1)]], [C('stdin of the generator\n')])),
 }
 DEF_G = 'def program G = % gen g0 @[S0]@\n    -stdin <<EOF\nstdin of the generator\nEOF'
+GEN_ERR = 'generated on stderr\n'
+
+# programs used as text sources: {stdout, stderr} x {exit code relevant, ignored} x {-stdin given directly,
+# accumulated through the program symbol G and the reference to it}.  These texts end with a -stdin line of the
+# generator: they are used as the whole TEXT-SOURCE of an instruction (`stdin = ...`, `file F = ...`), not nested
+# in the -stdin of another program.
+PROGRAM_MATRIX = []
+for _ch in ('stdout', 'stderr'):
+    for _ign in (False, True):
+        for _how in ('direct', 'symbol'):
+            _name = 'pgm-%s%s-%s' % (_ch, '-ign' if _ign else '', _how)
+            _opt = '-%s-from%s' % (_ch, ' -ignore-exit-code' if _ign else '')
+            if _how == 'direct':
+                _text = _opt + ' % gen d1 @[S0]@\n        -stdin "direct stdin of the generator"'
+                _gen = ([[C('gen')], [C('d1')], [S(0)]], [C('direct stdin of the generator')])
+            else:
+                _text = _opt + ' @ G @[S1]@\n        -stdin " + more from the reference"'
+                _gen = ([[C('gen')], [C('g0')], [S(0)], [S(1)]],
+                        [C('stdin of the generator\n + more from the reference')])
+            T[_name] = (_text, [C(GEN_OUT if _ch == 'stdout' else GEN_ERR)], _gen + ('gen-ign' if _ign else 'gen',))
+            PROGRAM_MATRIX.append(_name)
+# text sources that may also be nested as the -stdin of a program
+NESTABLE_TEXT_SOURCES = tuple(n for n in T if n not in PROGRAM_MATRIX)
 # sources whose value can be taken without a file system / a process (kernel K2)
 PURE_TEXT_SOURCES = ('string', 'string-sq', 'empty', 'sym', 'sym3', 'here-doc')
 
@@ -253,6 +276,13 @@ class Proc:
         return 'Proc(%s, shell=%r, args=%r, stdin=%r, cwd=%r)' % (self.role, self.shell, self.args, self.stdin, self.cwd)
 
 
+def gen_proc(g, env: Env, cwd) -> Proc:
+    """the process of a program used as text source; g = (argv values, stdin value or None[, role])"""
+    g_argv, g_stdin = g[0], g[1]
+    role = g[2] if len(g) > 2 else 'gen'
+    return Proc(role, False, [ev(v, env) for v in g_argv], None if g_stdin is None else ev(g_stdin, env), cwd)
+
+
 def procs_of(d: Den, role: str, env: Env, extra_stdin: Sequence = (), extra_gens: Sequence = (), cwd=None,
              extra_first: bool = False) -> List[Proc]:
     """The processes started for one execution of a program with denotation d: first the
@@ -260,8 +290,8 @@ def procs_of(d: Den, role: str, env: Env, extra_stdin: Sequence = (), extra_gens
     the program itself.  stdin = the program's own parts in order, then `extra_stdin`
     (the [setup] stdin, for the action to check); None when there is no part at all."""
     out = []
-    for g_argv, g_stdin in list(d.gens) + list(extra_gens):
-        out.append(Proc('gen', False, [ev(v, env) for v in g_argv], None if g_stdin is None else ev(g_stdin, env), cwd))
+    for g in list(d.gens) + list(extra_gens):
+        out.append(gen_proc(g, env, cwd))
     parts = (list(extra_stdin) + list(d.stdin)) if extra_first else (list(d.stdin) + list(extra_stdin))
     stdin = None if not parts else ''.join(ev(v, env) for v in parts)
     out.append(Proc(role, d.shell, argv_of(d, env), stdin, cwd))
